@@ -707,6 +707,17 @@ type zzWorld struct {
 	onIncubate func(wire.OutPoint, fn.Option[lnwallet.OutgoingHtlcResolution], fn.Option[lnwallet.IncomingHtlcResolution])
 
 	trace bool
+
+	// hooks, when set (C13), replace the channel-database stubs below by a
+	// real channel database (closesim_c13_chandb.go). Always nil for C12.
+	hooks zzWorldHooks
+}
+
+// zzWorldHooks: see closesim_c13_chandb.go.
+type zzWorldHooks interface {
+	closedInfo() (closed bool, ct channeldb.ClosureType, height uint32, fully bool)
+	configure(inc *zzIncarnation, cfg *ChannelArbitratorConfig)
+	startError(inc *zzIncarnation, err error)
 }
 
 // zzIncarnation is one process lifetime of the arbitrator.
@@ -1246,6 +1257,9 @@ func zzNewWorld(r *simcore.Run, t *testing.T, m *zzModel, cfg zzWorldCfg) *zzWor
 
 // closedInfo reads the durable close flag.
 func (w *zzWorld) closedInfo() (closed bool, ct channeldb.ClosureType, height uint32, fully bool) {
+	if w.hooks != nil {
+		return w.hooks.closedInfo()
+	}
 	if v := w.dbGet(zzChanBucket, []byte("fully")); v != nil {
 		fully = true
 	}
@@ -1445,6 +1459,9 @@ func (w *zzWorld) boot() *zzIncarnation {
 		arbCfg.ChainEvents = &ChainEventSubscription{}
 		arbCfg.Channel = nil
 	}
+	if w.hooks != nil {
+		w.hooks.configure(inc, &arbCfg)
+	}
 
 	bl, err := newBoltArbitratorLog(w.kv, arbCfg, chainhash.Hash{}, w.chanPoint)
 	w.r.Must(err, "newBoltArbitratorLog")
@@ -1462,6 +1479,9 @@ func (w *zzWorld) boot() *zzIncarnation {
 	w.startedAt = w.clk.Now()
 	w.logf("boot epoch=%d height=%d pendingClose=%v closeType=%d", inc.epoch, w.height, closed, closeType)
 	if err := inc.arb.Start(nil, newBeatFromHeight(int32(w.height))); err != nil {
+		if w.hooks != nil {
+			w.hooks.startError(inc, err)
+		}
 		w.r.Harness("arbitrator start: %v", err)
 	}
 	w.settle()
